@@ -25,7 +25,7 @@ import gen_modules as G
 import imp_lib as I
 
 PROP = "C07"
-PROOF_FILES = ["proofs/ImpProofs.v", "proofs/C07Proofs.v", "props/C07.v"]
+PROOF_FILES = ["proofs/ImpProofs.v", "proofs/ResFuel.v", "proofs/C01Complete.v", "proofs/C07Proofs.v", "props/C07.v"]
 MODEL_FILES = fa_run.MODEL_FILES + ["model/CallSwaps.v", "model/Results.v", "model/Imports.v", "model/Annot.v"]
 _ANSI = re.compile(r"\x1b\[[0-9;]*m")
 
